@@ -383,3 +383,115 @@ func (g *Gen) Amp(r *rand.Rand) Input {
 	in.Fam = fmt.Sprintf("amp:%s:place%d", name, place)
 	return in
 }
+
+// ---------------------------------------------------------------- wide functions
+
+// wideKinds are shapes in which ONE function refers to n distinct items of a
+// table that the VM indexes with one byte (Scriggo functions, native functions
+// and variables, types, constants of each register kind, struct fields, macros).
+// n is taken around 128 and 256, where signed/unsigned byte mistakes show.
+var wideKinds = []string{"funcs", "natives", "nativevars", "types", "strings", "floats", "ints", "fields", "closures", "macros", "tmplglobals", "pkgfuncs", "methods", "pkgvar-strings", "pkgvar-funcs"}
+
+// Wide returns a program or template in which one function refers to n distinct
+// functions, native functions, types, constants, fields or macros.
+func (g *Gen) Wide(r *rand.Rand) Input {
+	kind := pick(r, wideKinds)
+	n := []int{120, 126, 127, 128, 129, 130, 135, 200, 250, 254, 255, 256, 257, 258, 262}[r.Intn(15)]
+	var top, body strings.Builder
+	imports := ""
+	in := Input{Kind: "program"}
+	switch kind {
+	case "funcs":
+		for i := 0; i < n; i++ {
+			fmt.Fprintf(&top, "func f%d() int { return %d }\n", i, i)
+			fmt.Fprintf(&body, "\t_ = f%d()\n", i)
+		}
+	case "natives":
+		imports = "import \"wide\"\n\n"
+		for i := 0; i < n; i++ {
+			fmt.Fprintf(&body, "\t_ = wide.W%d()\n", i)
+		}
+	case "nativevars":
+		imports = "import \"wide\"\n\n"
+		for i := 0; i < n; i++ {
+			fmt.Fprintf(&body, "\twide.V%d++\n", i)
+		}
+	case "types":
+		for i := 0; i < n; i++ {
+			fmt.Fprintf(&top, "type T%d struct{ f%d int }\n", i, i)
+			fmt.Fprintf(&body, "\t_ = interface{}(T%d{})\n", i)
+		}
+	case "strings":
+		for i := 0; i < n; i++ {
+			fmt.Fprintf(&body, "\tprintln(\"s%d\")\n", i)
+		}
+	case "floats":
+		for i := 0; i < n; i++ {
+			fmt.Fprintf(&body, "\tprintln(%d.5)\n", i)
+		}
+	case "ints":
+		for i := 0; i < n; i++ {
+			fmt.Fprintf(&body, "\tprintln(%d)\n", 1000000+i)
+		}
+	case "fields":
+		top.WriteString("type S struct {\n")
+		for i := 0; i < n; i++ {
+			fmt.Fprintf(&top, "\tf%d struct{ a, b int }\n", i)
+			fmt.Fprintf(&body, "\t_ = s.f%d.b\n", i)
+		}
+		top.WriteString("}\n\nvar s S\n")
+	case "closures":
+		body.WriteString("\tx := 0\n")
+		for i := 0; i < n; i++ {
+			fmt.Fprintf(&body, "\tg%d := func() { x += %d }\n\tg%d()\n", i, i, i)
+		}
+	case "pkgfuncs":
+		var pk strings.Builder
+		pk.WriteString("package pkg\n\n")
+		for i := 0; i < n; i++ {
+			fmt.Fprintf(&pk, "func F%d() int { return %d }\n", i, i)
+			fmt.Fprintf(&body, "\t_ = pkg.F%d()\n", i)
+		}
+		in.Files = []File{{"go.mod", []byte("module mod\n")}, {"pkg/pkg.go", []byte(pk.String())}}
+		imports = "import \"mod/pkg\"\n\n"
+	case "pkgvar-strings": // package-level initialiser: the limit is hit in $initvars
+		top.WriteString("var x = []string{")
+		for i := 0; i < n; i++ {
+			fmt.Fprintf(&top, "\"s%d\", ", i)
+		}
+		top.WriteString("}\n")
+		body.WriteString("\t_ = x\n")
+	case "pkgvar-funcs":
+		top.WriteString("var x = []int{")
+		for i := 0; i < n; i++ {
+			fmt.Fprintf(&top, "f%d(), ", i)
+		}
+		top.WriteString("}\n")
+		for i := 0; i < n; i++ {
+			fmt.Fprintf(&top, "func f%d() int { return %d }\n", i, i)
+		}
+		body.WriteString("\t_ = x\n")
+	case "methods":
+		imports = "import \"strings\"\n\n"
+		for i := 0; i < n; i++ {
+			fmt.Fprintf(&body, "\tvar b%d strings.Builder\n\tb%d.WriteString(\"a\")\n", i, i)
+		}
+	case "macros", "tmplglobals":
+		var t strings.Builder
+		for i := 0; i < n; i++ {
+			if kind == "macros" {
+				fmt.Fprintf(&t, "{%% macro M%d %%}%d{%% end %%}{{ M%d() }}\n", i, i, i)
+			} else {
+				fmt.Fprintf(&t, "{%% var v%d = %d %%}{{ v%d }}{{ sprintf(\"%%d\", v%d) }}\n", i, i, i, i)
+			}
+		}
+		in.Kind, in.Main = "template", "index.html"
+		in.Files = []File{{"index.html", []byte(t.String())}}
+		in.Fam = fmt.Sprintf("wide:%s:%d", kind, n)
+		return in
+	}
+	src := "package main\n\n" + imports + top.String() + "\nfunc main() {\n" + body.String() + "}\n"
+	in.Files = append(in.Files, File{"main.go", []byte(src)})
+	in.Fam = fmt.Sprintf("wide:%s:%d", kind, n)
+	return in
+}
